@@ -805,5 +805,147 @@ impl Skip {
     }
 }
 
+//-----------------------------------------------------------------------------
+// C14 (file route): serialize_to / load_from on a failing file system
+
+#[derive(Clone, Copy, Debug, Serialize, Deserialize, PartialEq, Eq)]
+pub enum FileClause {
+    /// `serialize_to` with a file-size limit at every byte.
+    ToFull,
+    /// `serialize_to` with every write call failing once.
+    ToWriteOnce,
+    /// `serialize_to` with every write call failing from then on.
+    ToWriteFrom,
+    /// `serialize_to` / `load_from` with a failing open.
+    Open,
+    /// `load_from` on the file cut after every byte.
+    FromTrunc,
+    /// `load_from` with a read error at every byte.
+    FromErr,
+}
+
+#[derive(Clone, Debug, Serialize, Deserialize)]
+pub struct FileFault {
+    pub payload: Payload,
+    pub clause: FileClause,
+    pub chunk: Chunk,
+    pub eintr: Vec<u64>,
+    pub kind: Kind,
+    /// `None`: every fault point; `Some(k)`: only this one.
+    pub point: Option<u64>,
+}
+
+impl FileFault {
+    pub fn generate(rng: &mut Rng, max_len: usize) -> FileFault {
+        let clause = *rng.pick(&[FileClause::ToFull, FileClause::ToFull, FileClause::ToWriteOnce, FileClause::ToWriteFrom, FileClause::Open, FileClause::FromTrunc, FileClause::FromTrunc, FileClause::FromErr]);
+        let cfg = GenCfg::swarm(rng, Family::All, max_len);
+        let payload = gen_payload(rng, &cfg);
+        let chunk = match rng.below(3) { 0 => Chunk::Unbounded, 1 => Chunk::Max(*rng.pick(&[1usize, 7, 8, 64, 4096])), _ => Chunk::generate(rng) };
+        let eintr = if rng.chance(1, 3) { crate::simio::gen_eintr(rng, 32) } else { Vec::new() };
+        let kind = match clause { FileClause::FromErr => *rng.pick(&READ_KINDS), FileClause::Open => *rng.pick(&[Kind::PermissionDenied, Kind::NotFound, Kind::Other]), _ => *rng.pick(&WRITE_KINDS) };
+        FileFault { payload, clause, chunk, eintr, kind, point: None }
+    }
+
+    fn one(&self, prop: &str, val: &dyn DynVal, bytes: &[u8], k: u64, stats: &mut Stats) -> Option<Violation> {
+        use crate::simfs::FsFault;
+        let path = PathBuf::from("/sim/filefault");
+        let writing = matches!(self.clause, FileClause::ToFull | FileClause::ToWriteOnce | FileClause::ToWriteFrom) || (self.clause == FileClause::Open && k == 0);
+        let fault = match self.clause {
+            FileClause::ToFull => Some(FsFault::Full(k, self.kind)),
+            FileClause::ToWriteOnce => Some(FsFault::WriteOnce(k, self.kind)),
+            FileClause::ToWriteFrom => Some(FsFault::WriteFrom(k, self.kind)),
+            FileClause::Open => Some(FsFault::Open(0, self.kind)),
+            FileClause::FromTrunc => None,
+            FileClause::FromErr => Some(FsFault::ReadAt(k, self.kind)),
+        };
+        let fs = FsSession::start(FsPlan { chunk: self.chunk.clone(), eintr: self.eintr.clone(), fault }, 2 * bytes.len());
+        stats.evaluations += 1;
+        let tn = val.type_name();
+        let result = if writing {
+            fs.put(&path, vec![0x11; 5]);
+            let r = catch(|| val.serialize_to(&path));
+            let file = fs.file(&path).unwrap_or_default();
+            match r {
+                Err(p) => Some(Violation::new(prop, "serialize-to-panic", "serialize_to", format!("{}: fault {:?} point {}: {}", tn, self.clause, k, p))),
+                Ok(Ok(())) if file != bytes => Some(Violation::new(prop, "serialize-to-silent", "serialize_to", format!("{} ({} bytes): the file system failed ({:?}, point {}), serialize_to returned Ok and left {} bytes that differ from the serialization", self.payload.describe(), bytes.len(), self.clause, k, file.len()))),
+                Ok(Ok(())) => { stats.probe("file fault absorbed: file complete"); None },
+                Ok(Err(_)) => None,
+            }
+        } else {
+            let content = if self.clause == FileClause::FromTrunc { bytes[..k as usize].to_vec() } else { bytes.to_vec() };
+            fs.put(&path, content);
+            match catch(|| val.load_from(&path).map(|_| ())) {
+                Err(p) => Some(Violation::new(prop, "load-from-panic", "load_from", format!("{}: {:?} point {}: {}", tn, self.clause, k, p))),
+                Ok(Ok(())) => Some(Violation::new(prop, "load-from-accepts", "load_from", format!("{} ({} bytes): {:?} at byte {}: load_from returned Ok", self.payload.describe(), bytes.len(), self.clause, k))),
+                Ok(Err(_)) => None,
+            }
+        };
+        let leaked = fs.open_handles();
+        fs.with(|st| {
+            stats.steps += st.io.calls + st.counters.opens;
+            stats.fault("F1-open", st.counters.open_failed);
+            stats.fault("F3-full", st.counters.full_hits);
+            stats.fault("F4-write", st.counters.write_failed);
+            stats.fault("R4-error", st.counters.read_failed);
+            stats.fault("R3-eof", st.io.eof);
+            stats.fault("W1-short", if writing { st.io.short } else { 0 });
+            stats.fault("R1-short", if writing { 0 } else { st.io.short });
+            stats.sigs.insert(st.io.sig ^ 0xF11E);
+        });
+        if result.is_none() && leaked != 0 {
+            return Some(Violation::new(prop, "handle-leak", if writing { "serialize_to" } else { "load_from" }, format!("{} simulated handles still open after a failed call", leaked)));
+        }
+        stats.probe(if writing { "serialize_to on a failing file system" } else { "load_from on a cut or failing file" });
+        result
+    }
+
+    fn points(&self, val: &dyn DynVal, bytes: &[u8]) -> Vec<u64> {
+        if let Some(k) = self.point { return vec![k]; }
+        match self.clause {
+            FileClause::ToFull | FileClause::FromTrunc | FileClause::FromErr => (0..bytes.len() as u64).collect(),
+            FileClause::Open => vec![0, 1],
+            FileClause::ToWriteOnce | FileClause::ToWriteFrom => {
+                // Dry run to count the write calls.
+                let fs = FsSession::start(FsPlan { chunk: self.chunk.clone(), eintr: self.eintr.clone(), fault: None }, 2 * bytes.len());
+                let _ = catch(|| val.serialize_to(&PathBuf::from("/sim/filefault")));
+                let n = fs.with(|st| st.counters.writes);
+                (0..n).collect()
+            },
+        }
+    }
+
+    pub fn run(&self, prop: &str) -> Outcome {
+        let mut out = Outcome::default();
+        let val = match catch(|| self.payload.build()) { Ok(v) => v, Err(msg) => return out.fail(Violation::new(prop, "harness", "build", msg)) };
+        let bytes = match catch(|| val.serialize_vec()) { Ok(Ok(b)) => b, _ => return out.fail(Violation::new(prop, "harness", "serialize", "serialize failed".into())) };
+        for k in self.points(val.as_ref(), &bytes) {
+            if let Some(mut v) = self.one(prop, val.as_ref(), &bytes, k, &mut out.stats) {
+                v.message = format!("[fault point {}] {}", k, v.message);
+                return out.fail(v);
+            }
+        }
+        out
+    }
+
+    pub fn narrow_candidates(&self) -> Vec<FileFault> {
+        if self.point.is_some() { return Vec::new(); }
+        let val = match catch(|| self.payload.build()) { Ok(v) => v, Err(_) => return Vec::new() };
+        let bytes = match catch(|| val.serialize_vec()) { Ok(Ok(b)) => b, _ => return Vec::new() };
+        self.points(val.as_ref(), &bytes).into_iter().map(|k| { let mut s = self.clone(); s.point = Some(k); s }).collect()
+    }
+
+    pub fn simpler(&self) -> Vec<FileFault> {
+        let mut out = Vec::new();
+        for p in self.payload.simpler() {
+            let mut s = self.clone(); s.payload = p.clone(); out.push(s);
+            if let Some(k) = self.point { for kk in [0, k / 2, k.saturating_sub(8), k.saturating_sub(1)] { if kk < k { let mut s = self.clone(); s.payload = p.clone(); s.point = Some(kk); out.push(s); } } }
+        }
+        if let Some(k) = self.point { for kk in [0, k / 2, k.saturating_sub(8), k.saturating_sub(1)] { if kk < k { let mut s = self.clone(); s.point = Some(kk); out.push(s); } } }
+        if !self.chunk.is_unbounded() { let mut s = self.clone(); s.chunk = Chunk::Unbounded; out.push(s); }
+        if !self.eintr.is_empty() { let mut s = self.clone(); s.eintr.clear(); out.push(s); }
+        out
+    }
+}
+
 #[allow(dead_code)]
 fn _unused(_: io::Error) {}
